@@ -84,7 +84,7 @@ def main(chk: core.Check) -> int:
     for k in set(kinds):
         chk.hist("buffer_kind", k, kinds.count(k))
     # oracle: sanitizer report / crash / hang
-    for (w, m), r, kd in zip(bufs, nat, kinds):
+    for bi, ((w, m), r, kd) in enumerate(zip(bufs, nat, kinds)):
         chk.count(1, key=(None if kd == "well-formed" else hash((tuple(w), m))))
         chk.hist("native_outcome", r["class"])
         if r["class"] == "timeout":
@@ -94,6 +94,7 @@ def main(chk: core.Check) -> int:
             if r2["class"] != "timeout":
                 chk.hist("native_outcome", "slow-batch-not-a-hang")
                 r = r2
+                nat[bi] = r2
         if r["class"] in ("oob", "timeout"):
             small = shrink(w, m)
             chk.failing_input("raw parser (native ASan/UBSan build of the working tree)", {"words": [hex(x) for x in small], "n_words": len(small), "sel_mask": m, "kind": kd},
